@@ -144,7 +144,9 @@ func (p *parser) parseUnaryExpr() Node {
 	if unaryExp.Right == nil {
 		return nil // previous error
 	}
-	p.validateUnaryType(unaryExp)
+	if !p.validateUnaryType(unaryExp) {
+		return nil // previous error
+	}
 	return unaryExp
 }
 
@@ -338,9 +340,10 @@ func isComparisonOp(tt lexer.TokenType) bool {
 	return tt == lexer.EQ || tt == lexer.NOT_EQ || tt == lexer.LT || tt == lexer.GT || tt == lexer.LTEQ || tt == lexer.GTEQ
 }
 
-func (p *parser) validateUnaryType(unaryExp *UnaryExpression) {
+func (p *parser) validateUnaryType(unaryExp *UnaryExpression) bool {
 	tok := unaryExp.Token()
 	rightType := unaryExp.Right.Type()
+	errCount := len(p.errors)
 	switch unaryExp.Op {
 	case OP_MINUS:
 		if unaryExp.Right.Type() != NUM_TYPE {
@@ -353,6 +356,7 @@ func (p *parser) validateUnaryType(unaryExp *UnaryExpression) {
 	default:
 		p.appendErrorForToken("invalid unary operator", tok)
 	}
+	return len(p.errors) == errCount
 }
 
 func (p *parser) validateBinaryType(binaryExp *BinaryExpression) bool {
